@@ -2,13 +2,16 @@
 //! traits): C08 constant candle => constant result; C09 determinism; C10 no panic on valid streams.
 use crate::reflib::*;
 use crate::rsx;
-use yata::core::{Action, Candle, IndicatorConfig, IndicatorInstance, IndicatorResult, ValueType};
+use yata::core::{Action, Candle, Source, IndicatorConfig, IndicatorInstance, IndicatorResult, ValueType};
 use yata::indicators::*;
 
 fn ind_constant<C: IndicatorConfig + Default>() {
+	ind_constant_cfg(C::default());
+}
+
+fn ind_constant_cfg<C: IndicatorConfig>(cfg: C) {
 	let k = rsx::param("k") as usize;
 	let c = valid_candle_i(0);
-	let cfg = C::default();
 	let mut inst = cfg.init(&c).unwrap();
 	let skip = rsx::param("skip") as usize;
 	let mut first: Option<IndicatorResult> = None;
@@ -74,6 +77,125 @@ pub fn ind_constant_dispatch() {
 		"TrendStrengthIndex" => ind_constant::<TrendStrengthIndex>(),
 		"TrueStrengthIndex" => ind_constant::<TrueStrengthIndex>(),
 		_ => ind_constant::<WoodiesCCI>(),
+	}
+}
+
+/// C08 on a non-default source: every indicator with a public `source` field, set to `Source::Open` (the
+/// default is `Close` almost everywhere, where "seeded with the source" and "seeded with the close" coincide)
+pub fn ind_constant_open_dispatch() {
+	let kind = rsx::param_str("kind");
+	match kind.as_str() {
+		"AwesomeOscillator" => {
+			let mut cfg = AwesomeOscillator::default();
+			cfg.source = Source::Open;
+			ind_constant_cfg(cfg)
+		}
+		"BollingerBands" => {
+			let mut cfg = BollingerBands::default();
+			cfg.source = Source::Open;
+			ind_constant_cfg(cfg)
+		}
+		"ChandeKrollStop" => {
+			let mut cfg = ChandeKrollStop::default();
+			cfg.source = Source::Open;
+			ind_constant_cfg(cfg)
+		}
+		"ChandeMomentumOscillator" => {
+			let mut cfg = ChandeMomentumOscillator::default();
+			cfg.source = Source::Open;
+			ind_constant_cfg(cfg)
+		}
+		"CommodityChannelIndex" => {
+			let mut cfg = CommodityChannelIndex::default();
+			cfg.source = Source::Open;
+			ind_constant_cfg(cfg)
+		}
+		"CoppockCurve" => {
+			let mut cfg = CoppockCurve::default();
+			cfg.source = Source::Open;
+			ind_constant_cfg(cfg)
+		}
+		"DetrendedPriceOscillator" => {
+			let mut cfg = DetrendedPriceOscillator::default();
+			cfg.source = Source::Open;
+			ind_constant_cfg(cfg)
+		}
+		"EldersForceIndex" => {
+			let mut cfg = EldersForceIndex::default();
+			cfg.source = Source::Open;
+			ind_constant_cfg(cfg)
+		}
+		"Envelopes" => {
+			let mut cfg = Envelopes::default();
+			cfg.source = Source::Open;
+			ind_constant_cfg(cfg)
+		}
+		"FisherTransform" => {
+			let mut cfg = FisherTransform::default();
+			cfg.source = Source::Open;
+			ind_constant_cfg(cfg)
+		}
+		"HullMovingAverage" => {
+			let mut cfg = HullMovingAverage::default();
+			cfg.source = Source::Open;
+			ind_constant_cfg(cfg)
+		}
+		"IchimokuCloud" => {
+			let mut cfg = IchimokuCloud::default();
+			cfg.source = Source::Open;
+			ind_constant_cfg(cfg)
+		}
+		"Kaufman" => {
+			let mut cfg = Kaufman::default();
+			cfg.source = Source::Open;
+			ind_constant_cfg(cfg)
+		}
+		"KeltnerChannel" => {
+			let mut cfg = KeltnerChannel::default();
+			cfg.source = Source::Open;
+			ind_constant_cfg(cfg)
+		}
+		"MACD" => {
+			let mut cfg = MACD::default();
+			cfg.source = Source::Open;
+			ind_constant_cfg(cfg)
+		}
+		"MomentumIndex" => {
+			let mut cfg = MomentumIndex::default();
+			cfg.source = Source::Open;
+			ind_constant_cfg(cfg)
+		}
+		"RelativeStrengthIndex" => {
+			let mut cfg = RelativeStrengthIndex::default();
+			cfg.source = Source::Open;
+			ind_constant_cfg(cfg)
+		}
+		"SMIErgodicIndicator" => {
+			let mut cfg = SMIErgodicIndicator::default();
+			cfg.source = Source::Open;
+			ind_constant_cfg(cfg)
+		}
+		"TrendStrengthIndex" => {
+			let mut cfg = TrendStrengthIndex::default();
+			cfg.source = Source::Open;
+			ind_constant_cfg(cfg)
+		}
+		"Trix" => {
+			let mut cfg = Trix::default();
+			cfg.source = Source::Open;
+			ind_constant_cfg(cfg)
+		}
+		"TrueStrengthIndex" => {
+			let mut cfg = TrueStrengthIndex::default();
+			cfg.source = Source::Open;
+			ind_constant_cfg(cfg)
+		}
+		"WoodiesCCI" => {
+			let mut cfg = WoodiesCCI::default();
+			cfg.source = Source::Open;
+			ind_constant_cfg(cfg)
+		}
+		_ => rsx::check("ind.const.unknown_kind", false),
 	}
 }
 
